@@ -45,11 +45,13 @@ PROVED = ['[P] modpow_spec / modpow_cong / modpow_total: modpow = x^e mod m (all
           'a polynomial of degree 2^(d-1) has at most 2^(d-1) roots in the field F_2[x]/(g) of 2^d elements, MathComp irredp_FAdjoin, plus the Chinese remainder theorem -- while the set of u with constant trace vector is closed under +, squaring and '
           'congruence mod f) and the recursion depth length + 1 suffices (both pieces of a split have smaller degree)',
           '[P] factorize_mod_2_terminates (fifth wave): for p = 2 (which draws no random number), every f with f mod 2 <> 0, at most 2^64 coefficients, pusize = 2 (or at most 2 coefficients), both profiles: factorize_mod_p RETURNS; '
-          'with the partial-correctness theorems this is total correctness of the factorisation modulo 2 for all inputs']
+          'with the partial-correctness theorems this is total correctness of the factorisation modulo 2 for all inputs',
+          '[P] final_split_odd_depth_fuel_irrelevant / final_split_depth_fuel_irrelevant / final_split_out_of_fuel_not_depth (seventh wave): for p prime and a reduced non-zero input (every d, every draw stream, every accumulated result) '
+          'final_split_odd has the same outcome (value, panic or OutOfFuel, and the stream left) for every recursion-depth fuel >= length poly (both pieces of a split are shorter than the input); so for odd p final_split equals '
+          'final_split_odd with any depth fuel >= the supplied length + 1, and an OutOfFuel of final_split persists under every larger depth fuel: it comes from a retry loop (400 attempts) or a draw (rejection-sampling fuel), never from the depth']
 NOT_PROVED = ['e_i >= 1 in the release profile for absurd pusize (pusize <> p with p <= deg f) or more than 2^64 coefficients: a wrapped e *= pusize can be 0',
               'all clauses when pusize <> p and p <= deg f (the code then reads wrong coefficients or divides by zero: outside the contract); '
               'the product clause in the release profile for coefficient vectors longer than 2^64',
-              'fuel sufficiency of the recursion depth of final_split_odd (odd p; it holds by the same degree argument as for p = 2, not stated separately because the retry loop of the same function is only probabilistically bounded)',
               'termination for all draw streams (false: only with probability 1)']
 RULE = ('factorize_mod_p on every coefficient vector up to a degree bound over F_2, F_3, F_5, F_7 (pusize = p); random and structured '
         'polynomials of degree <= 12 (thorough: 16) over p in {11, 13, 101, 65537, 2^61-1, nextprime(2^64)}: planted products of distinct '
@@ -59,7 +61,7 @@ RULE = ('factorize_mod_p on every coefficient vector up to a degree bound over F
 CLAIM = dict(
     technique='Coq proof about the Gallina model of src/poly_mod/{prim,factorize_mod_p}.rs + extracted-model-vs-implementation correspondence with replayed random draws + independent oracle',
     text='Proved for all inputs: the arithmetic layer (modpow, poly_mod, poly_divrem for prime p, poly_gcd divides), the normalisation clause of the factoriser (monic, reduced, degree >= 1, multiplicity >= 1), the product clause (f = lc(f mod p) * prod g_i^e_i modulo p for every prime p, f mod p <> 0, every draw stream, pusize = p or p > deg f; likewise for the square-free, distinct-degree and equal-degree stages separately), irreducibility modulo p and pairwise distinctness of the returned g_i (same hypotheses) -- i.e. every clause of the property as partial correctness --, the separation of degrees by the distinct-degree stage on square-free inputs, and the independence of pusize for every prime p > deg f. For p = 2 (no random draws) termination is proved for ALL inputs (factorize_mod_2_terminates: the trace-map loop of final_split_2 succeeds within the supplied attempts), so the factorisation modulo 2 is totally correct. Proved on bounded domains by vm_compute: full correctness (incl. termination without draws) of factorize_mod_p over F_2 up to degree 8. The model is tied to /repo by running the extracted model and impl_svc on the same inputs and the same random bytes.',
-    note='The clauses are proved as partial correctness (what holds whenever factorize_mod_p returns) together with: no panic for any input and draw stream, and termination of the deterministic stages squarefree and degree, and of the whole routine for p = 2; for odd p termination of the Cantor-Zassenhaus retry loop holds with probability 1 only and is not a theorem (the independent oracle checks every clause on every explored input, always_oracle).',
+    note='The clauses are proved as partial correctness (what holds whenever factorize_mod_p returns) together with: no panic for any input and draw stream, and termination of the deterministic stages squarefree and degree, and of the whole routine for p = 2; for odd p termination of the Cantor-Zassenhaus retry loop holds with probability 1 only and is not a theorem (the recursion-depth fuel of that stage is proved never to be what runs out: final_split_out_of_fuel_not_depth) (the independent oracle checks every clause on every explored input, always_oracle).',
     ref='DESIGN.md section 4, C08')
 TIMEOUT = 1200
 
